@@ -139,7 +139,10 @@ def do_mutation(pipeline, mut: dict, outputs_of: dict[str, list[str]]) -> None:
     outputs_of: function name -> its output names (never changed by the mutations used here)."""
     kind = mut["kind"]
     with contextlib.redirect_stdout(io.StringIO()):
-        if kind == "update_defaults":
+        if kind == "update_defaults" and mut.get("f"):
+            # on the member function that declares the default (same description change when no other function declares one)
+            pipeline[output_name_of({"outputs": outputs_of[mut["f"]]})].update_defaults({mut["p"]: from_json(mut["v"])})
+        elif kind == "update_defaults":
             pipeline.update_defaults({mut["p"]: from_json(mut["v"])})
         elif kind == "update_bound":
             pipeline[output_name_of({"outputs": outputs_of[mut["f"]]})].update_bound({mut["p"]: from_json(mut["v"])})
